@@ -434,7 +434,7 @@ def _sweep_core(ctx, model, exc_classes):
         var = a.vararg.arg if a.vararg is not None else None
         targets = list(params) + ([var] if var else [])
         base_cases = [(None, None)] + [(t, v) for t in targets for v in BAD_VALUES + ["<pregex>", "<empty-pregex>", "<nonrep>",
-                                                                                  "<q-atleast>", "<q-optional>", "<q-range-lazy>"]]
+                                                                                  "<q-atleast>", "<q-optional>", "<q-range-lazy>", "<alternation>"]]
         for tgt, val in base_cases:
             if B.NONTERM[0] > 12:
                 ctx.note("sweep stopped early: more than 12 inputs exhausted the step budget (non-termination already reported)")
@@ -519,6 +519,8 @@ def _val(model, v):
         return make_operand(model, "", "Empty", True)
     if v == "<nonrep>":
         return make_operand(model, "^vw", "Assertion", False)
+    if v == "<alternation>":
+        return make_operand(model, "v|w", "Alternation", True)
     if v == "<q-atleast>":
         return make_operand(model, "v{2,}", "Quantifier", True)
     if v == "<q-optional>":
@@ -583,7 +585,7 @@ def _sweep_meta(ctx, model, exc_classes):
 
 
 # ---------------------------------------------------------------------------
-def _export(ctx, model):
+def _export(ctx, model, RULE="R-EXPORT"):
     """Texts the DSL itself can emit for literals: images of __escape over an adversarial alphabet (every
     backslash doubled, control characters verbatim), alone and next to token / class constants."""
     from .c01 import escape_of
@@ -608,10 +610,10 @@ def _export(ctx, model):
         try:
             exported = it.call(FuncRef(f_get, op, True), [])
         except PyRaise as e:
-            ctx.violation("R-EXPORT", f_get.relpath, f_get.short, "<raise>", f"get_pattern raises {e.name}", f_get.node.lineno, inp=repr(text))
+            ctx.violation(RULE, f_get.relpath, f_get.short, "<raise>", f"get_pattern raises {e.name}", f_get.node.lineno, inp=repr(text))
             continue
         n_checked += 1
-        ctx.instance("R-EXPORT", key=text, sample=f"get_pattern of Pregex({raw!r}) [text {text!r}] -> {exported!r}" if raw and len(raw) <= 2 and ("\\" in raw or "\n" in raw) else None)
+        ctx.instance(RULE, key=text, sample=f"get_pattern of Pregex({raw!r}) [text {text!r}] -> {exported!r}" if raw and len(raw) <= 2 and ("\\" in raw or "\n" in raw) else None)
         ok = isinstance(exported, str) and exported.isprintable()
         why = "" if ok else f"exported text {exported!r} is not printable"
         if ok:
@@ -622,17 +624,17 @@ def _export(ctx, model):
             except re.error as e:
                 ok, why = False, f"exported text {exported!r} does not compile: {e}"
         if not ok:
-            ctx.violation("R-EXPORT", f_repr.relpath, f_repr.short, "printable export",
+            ctx.violation(RULE, f_repr.relpath, f_repr.short, "printable export",
                           "get_pattern() is not a printable text that compiles to a regex equivalent to the pattern itself",
                           f_repr.node.lineno, inp=_export_shape(raw if raw is not None else text), detail=f"pattern {text!r}: {why}")
     for inc in (True,):
         op = make_operand(model, "a\\.b", "Other", True)
         v = it.call(FuncRef(f_get, op, True), [True])
-        ctx.instance("R-EXPORT", key="include_flags", sample=f"get_pattern(include_flags=True) -> {v!r}")
+        ctx.instance(RULE, key="include_flags", sample=f"get_pattern(include_flags=True) -> {v!r}")
         if not (isinstance(v, str) and v.startswith("/") and "a\\.b" in v):
-            ctx.violation("R-EXPORT", f_get.relpath, f_get.short, "include_flags", "get_pattern(include_flags=True) does not wrap the pattern",
+            ctx.violation(RULE, f_get.relpath, f_get.short, "include_flags", "get_pattern(include_flags=True) does not wrap the pattern",
                           f_get.node.lineno, detail=repr(v))
-    ctx.floor("R-EXPORT", n_checked, 2000, "pattern texts")
+    ctx.floor(RULE, n_checked, 2000, "pattern texts")
     ctx.extra["export_texts_checked"] = n_checked
 
 
